@@ -181,7 +181,16 @@ def waste(db, rep):
                 coeffs, const = c.expr.linear_in_vars()
             except Exception:
                 continue
+            # a balance against a supply reads  uses - supply <= 0 : each coefficient is taken per unit of supply (the constraint divided by
+            # the supply's own coefficient), so that a waste factor written on the supply's side is seen on the eaten variable where it acts
+            sup = sorted(supply_atoms(const), key=repr)
+            factor = Rat.const(1)
+            if len(sup) == 1:
+                cs = _coeff_of_atom(const, sup[0])
+                if cs is not None and not cs.is_zero() and rat_sign(cs, ranges) in ("+", "-"):
+                    factor = Rat.const(-1) / cs
             for v, cv in coeffs.items():
+                cv = cv * factor
                 watoms = [a for a in cv.atoms() if isinstance(a, K) and "WASTE" in ".".join(a.path).upper()]
                 for w in watoms:
                     key = (t.entry, name, v.family, ".".join(w.path), str(cv))
